@@ -854,7 +854,7 @@ def run(ctx):
             ctx.count("kind:fixed")
             ctx.case(case)
             eval_case(ctx, case)
-    n = ctx.budget(40, 700)
+    n = ctx.budget(40, 3000)
     for _ in range(n):
         case = make_case(ctx.rng, ctx)
         ctx.case(case)
